@@ -1,0 +1,19 @@
+//go:build verif && amd64
+
+package dsp
+
+// VerifDisableAVX2 makes every kernel choice behave as on a CPU without AVX2:
+// the dispatch variables that init() pointed at AVX2 routines go back to the
+// SSE2 ones and hasAVX2 (consulted at call time by the direct wrappers and by
+// the lossy quantiser) reads false. Verification harness only.
+func VerifDisableAVX2() {
+	hasAVX2 = false
+	SSE16x16 = sse16x16SSE2
+	AddGreenToBlueAndRedFunc = addGreenToBlueAndRedSSE2
+	SubtractGreenFunc = subtractGreenSSE2
+	FTransform = fTransformSSE2
+	FTransform2 = fTransform2
+	ITransform = iTransformSSE2
+	Transform = transformTwoDecSSE2
+	TransformUV = transformUVSSE2
+}
